@@ -246,3 +246,19 @@ fn stub_strobe_recv_enc(_s: &mut Strobe, _data: &mut [u8], _more: bool) {}
 fn k_recover_cut_first() {
   cut_harness::<2>(true);
 }
+
+/// N7 wrapper contract (ASSUMED by Verus): slice -> array conversion succeeds iff the lengths match
+/// and then copies the contents; all byte strings of length 0..6 against N = 4
+#[kani::proof]
+#[kani::unwind(8)]
+fn k_slice_to_array_contract() {
+  let buf: [u8; 6] = kani::any();
+  let n: usize = kani::any();
+  kani::assume(n <= 6);
+  let s = &buf[..n];
+  let r: Result<[u8; 4], _> = s.try_into();
+  assert!(r.is_ok() == (n == 4));
+  if let Ok(a) = r {
+    assert!(a[0] == s[0] && a[1] == s[1] && a[2] == s[2] && a[3] == s[3]);
+  }
+}
